@@ -170,10 +170,14 @@ def check_c08(case, stats):
         if not isinstance(r2, ValueError):
           raise Violation('C08/supervised-rejects-feasible-chunks', 'RCA_Supervised raised %r but the helper builds the chunks' % (r,))
       raise Discard('specified fit failure (%s)' % type(r).__name__)
-    if name == 'SCML_Supervised':
-      best, args = base(obs_basis.get('b'))
-    else:
-      best, args = base()
+    try:
+      if name == 'SCML_Supervised':
+        best, args = base(obs_basis.get('b'))
+      else:
+        best, args = base()
+    except ValueError as e:
+      raise Violation('C08/helper-rejects-what-supervised-accepted/' + name,
+                      'the supervised fit succeeded but the Constraints helper with the same hyper-parameters raises: %s' % e)
     r = E.fit_call('C08/fit-base', name.replace('_Supervised', ''), best, args, case['desc'], ps,
                    expect=(RuntimeError,) if 'SDML' in name else ())
     if isinstance(r, Exception):
